@@ -31,6 +31,7 @@ import Tsg.Proofs.CheckerResolved
 import Tsg.Proofs.ParserUnresolved
 import Tsg.Proofs.LazySafeRun
 import Tsg.Proofs.ContractsSound
+import Tsg.Proofs.StrictFuel
 
 namespace C05
 open Parser Checker
@@ -352,5 +353,49 @@ theorem C05_checked_inputs_never_panic (o : POracle) (nullable : String → Opti
       (Contracts.treeOKB_sound tree ht) (Contracts.globalsWfB_sound _ _ hg) (Contracts.strictMatchesOKB_sound tree _ ms hms) site,
    C05_load_then_lazy_never_panics o nullable text file hload tree oracle globals la va ma cancelAt fuel ef merged g0
       (Contracts.treeOKB_sound tree ht) (Contracts.globalsWfB_sound _ _ hg) (Contracts.mergedAllOKB_sound tree _ merged hm) site⟩
+
+/-- **Strict execution terminates** on files whose attribute shorthands are not cyclic. The only recursion of the strict
+interpreter that is not structural (on the syntax, on a list of values, on the bytes left to scan) is the expansion of
+a shorthand inside a shorthand, and the model bounds its depth by `fuel`. If some rank on shorthand names decreases from
+every shorthand to the shorthands its body mentions, a fuel above all ranks is never exhausted — whatever the tree,
+oracle, globals, debug configuration, cancellation flag, matches and initial graph. (Cyclic shorthands admit no such
+rank; on them the real interpreter overflows its stack: the known finding of this property.) -/
+theorem C05_strict_terminates (file : File) (tree : Tree) (oracle : Oracle) (globals : GlobalsM) (la va ma : Option String)
+    (cancelAt : Option Nat) (fuel : Nat) (ms : List (List QMatch)) (g0 : CGraph) (r : String → Nat)
+    (hr : ∀ sh ∈ file.shorthands, ∀ a ∈ sh.attrs, ∀ sh', file.shorthands.find? (·.name = a.1) = some sh' → r sh'.name < r sh.name)
+    (hall : ∀ sh ∈ file.shorthands, r sh.name < fuel) :
+    (Strict.run file tree oracle globals la va ma cancelAt fuel ms g0).outcome ≠ some .outOfFuel :=
+  StrictFuel.strict_never_out_of_fuel file tree oracle globals la va ma cancelAt fuel ms g0 r hr hall
+
+/-- the rank hypothesis is satisfiable by nested shorthands (`attribute sh1 = p => shk = p` /
+`attribute sh2 = q => sh1 = q, shq`, the shapes the generators use), and not by a shorthand that mentions itself -/
+example : ∃ r : String → Nat,
+    let shs : List Shorthand := [{ name := "sh1", var := "p", varLoc := ⟨0, 0⟩, attrs := [("shk", .var "p" ⟨0, 0⟩)], loc := ⟨0, 0⟩ },
+                                 { name := "sh2", var := "q", varLoc := ⟨0, 0⟩, attrs := [("sh1", .var "q" ⟨0, 0⟩), ("shq", .trueLit)], loc := ⟨0, 0⟩ }]
+    (∀ sh ∈ shs, ∀ a ∈ sh.attrs, ∀ sh', shs.find? (·.name = a.1) = some sh' → r sh'.name < r sh.name) ∧ ∀ sh ∈ shs, r sh.name < 2 := by
+  refine ⟨fun n => if n = "sh2" then 1 else 0, ?_⟩
+  intro shs
+  constructor
+  · intro sh hsh a ha sh' hf
+    simp only [shs, List.mem_cons, List.mem_nil_iff, or_false] at hsh
+    rcases hsh with rfl | rfl
+    · simp only [List.mem_cons, List.mem_nil_iff, or_false] at ha
+      subst ha
+      simp [shs, List.find?] at hf
+    · simp only [List.mem_cons, List.mem_nil_iff, or_false] at ha
+      rcases ha with rfl | rfl
+      · simp [shs, List.find?] at hf
+        subst hf
+        simp
+      · simp [shs, List.find?] at hf
+  · intro sh hsh
+    simp only [shs, List.mem_cons, List.mem_nil_iff, or_false] at hsh
+    rcases hsh with rfl | rfl <;> simp
+
+example (r : String → Nat) (sh : Shorthand) (hself : ("self", Expr.trueLit) ∈ sh.attrs) (hname : sh.name = "self") :
+    ¬ (∀ s ∈ [sh], ∀ a ∈ s.attrs, ∀ s', [sh].find? (·.name = a.1) = some s' → r s'.name < r s.name) := by
+  intro h
+  have := h sh (by simp) ("self", .trueLit) hself sh (by simp [List.find?, hname])
+  omega
 
 end C05
